@@ -35,9 +35,10 @@ ShapeOK(raw)  == raw.outer = "list" /\ Len(raw.rows) = 2 /\ \A k \in DOMAIN raw.
 Atoms(raw)    == UNION {{raw.rows[k].atoms[j] : j \in DOMAIN raw.rows[k].atoms} : k \in DOMAIN raw.rows}
 Odd(raw)      == \E a \in Atoms(raw) : a.t = "odd"        \* NaN, inf, bool: informational only
 ValuesOK(raw) == \A a \in Atoms(raw) : a.t = "num"
-Vec(r)        == [j \in 1..6 |-> r.atoms[j].v]
+Vec(r)        == [j \in 1..6 |-> r.atoms[j].v * 8 + r.atoms[j].eps]
 NumAt(raw, r, j) == raw.rows[r].atoms[j].t = "num"
-V(raw, r, j)     == raw.rows[r].atoms[j].v
+\* numeric value of an atom: v plus eps units in the last place (an order embedding: v * 8 + eps)
+V(raw, r, j)     == raw.rows[r].atoms[j].v * 8 + raw.rows[r].atoms[j].eps
 \* an association constraint whose operands are all proper numbers is violated
 AssocDefect(raw) ==
     \/ NumAt(raw, 1, 1) /\ V(raw, 1, 1) # 0
@@ -70,6 +71,11 @@ VMul(rec) ==
        ELSE IF rec.mulB # expB \/ rec.mulT # expT \/ rec.rmulB # expB \/ rec.rmulT # expT THEN <<"viol", "C19:scaling-values">>
        ELSE IF ~Valid(rec.mulB, rec.mulT) THEN <<"viol", "C19:scaling-valid">>
        ELSE IF rec.afterB # origB \/ rec.afterT # origT \/ rec.fresh # 1 THEN <<"viol", "C19:original-untouched">>
+       ELSE IF rec.imulB # expB \/ rec.imulT # expT THEN <<"viol", "C19:scaling-values">>
+       ELSE IF rec.nick \in {"UKSP", "GPDP", "IGKS", "EKS"} /\ rec.nick # Nickname(rec.mulB, rec.mulT)
+            THEN <<"viol", "C19:nickname">>
+       ELSE IF rec.nick = "stale" \/ (rec.nick = "other" /\ Nickname(rec.mulB, rec.mulT) # "other")
+            THEN <<"viol", "C19:nickname">>
        ELSE IF \E k \in DOMAIN rec.scores : rec.scores[k][2] * rec.den # rec.scores[k][1] * rec.num
             THEN <<"viol", "C19:score-homogeneity">>
        ELSE IF \E k \in DOMAIN rec.scores :
